@@ -9,3 +9,6 @@ import PlasVerif.Properties.C15
 import PlasVerif.Properties.C07
 import PlasVerif.Properties.C16
 import PlasVerif.Properties.C20
+import PlasVerif.Properties.C03
+import PlasVerif.Properties.C10
+import PlasVerif.Properties.C11
